@@ -1227,12 +1227,19 @@ impl h3_datagram::quic_traits::SendDatagram<SimBuf> for SimDgramSend {
     }
 }
 impl h3_datagram::quic_traits::RecvDatagram for SimDgramRecv {
-    type Buffer = Bytes;
-    fn poll_incoming_datagram(&mut self, cx: &mut Context<'_>) -> Poll<Result<Bytes, ConnectionErrorIncoming>> {
+    // the trait leaves the buffer type to the transport: half of the datagrams of two or more bytes are handed
+    // over as a buffer of two segments, cut at a drawn point (possibly inside the quarter stream id varint)
+    type Buffer = SimBuf;
+    fn poll_incoming_datagram(&mut self, cx: &mut Context<'_>) -> Poll<Result<SimBuf, ConnectionErrorIncoming>> {
         let mut n = self.net.lock().unwrap();
         let st = &mut n.sides[self.side as usize];
         if let Some(b) = st.dgram_rx.pop_front() {
-            return Poll::Ready(Ok(b));
+            if b.len() >= 2 && draw(2) == 1 {
+                let cut = 1 + draw_usize(b.len() - 1);
+                obs::count("net.dgram_received_in_two_segments");
+                return Poll::Ready(Ok(SimBuf::multi(&b, &[cut])));
+            }
+            return Poll::Ready(Ok(SimBuf::One(b)));
         }
         if let Some(f) = &st.fault {
             return Poll::Ready(Err(f.to_h3()));
